@@ -1165,8 +1165,12 @@ impl LZDiff {
             }
         }
 
-        // Remaining bases are literals
-        est_cost += text_size - i;
+        // Remaining bases are literals. `i` can have advanced past `text_size`: a back-extended
+        // match is counted from `i` without rewinding by the backward part (as C++ AGC's
+        // Estimate does, whose uint32_t arithmetic wraps at this point). Wrap explicitly, so that
+        // builds with overflow checks compute the same estimate as release builds instead of
+        // panicking.
+        est_cost = est_cost.wrapping_add(text_size.wrapping_sub(i));
 
         est_cost
     }
